@@ -71,6 +71,7 @@ type job struct {
 	errKind string
 	simple  bool
 	viol    []string
+	negOff  bool // Go reported a negative bare byte offset (defect D45); the model's Nat offset is truncated at 0
 }
 
 func endName(fail bool) string {
@@ -87,27 +88,39 @@ func baseTok(b string) string {
 	return vh.XS(b)
 }
 
+// dblLegacy: the implementation is the code before patch c16d-1 (defect D45: the hand-back error sites
+// subtract the offending rune's size twice from the capture-off byte offset). Determined once by a probe
+// (probeDbl) so that the model variant compared (CfgO.dbl) is the one of the tree under test; the
+// defect itself is reported by the oracle (negative byte offset), independently of this switch.
+var dblLegacy bool
+
 func (j *job) line() string {
-	return fmt.Sprintf("ttlo.dec %s %s %s %s %d,%d,%d %s %s", j.pkg, endName(j.fail), vh.B01(j.capture), vh.B01(j.simple), j.init.b, j.init.l, j.init.c, baseTok(j.base), vh.X(j.doc))
+	return fmt.Sprintf("ttlo.dec %s %s %s %s %s %d,%d,%d %s %s", j.pkg, endName(j.fail), vh.B01(j.capture), vh.B01(j.simple), vh.B01(dblLegacy), j.init.b, j.init.l, j.init.c, baseTok(j.base), vh.X(j.doc))
+}
+
+// probeDbl: `<s> .` with capture off — the `.` at byte 4 is reported at 3 by the unpatched code.
+func probeDbl() bool {
+	r := goDecode("turtle", false, false, off{}, "", []byte("<s> ."), true, 0)
+	return r.epos == "Eb3"
 }
 
 func parseLine(l string) (*job, bool) {
 	f := strings.Fields(l)
-	if len(f) != 8 || f[0] != "ttlo.dec" {
+	if len(f) != 9 || f[0] != "ttlo.dec" {
 		return nil, false
 	}
 	j := &job{kind: "replay", pkg: f[1], fail: f[2] == "io", capture: f[3] == "1"}
-	if _, err := fmt.Sscanf(f[5], "%d,%d,%d", &j.init.b, &j.init.l, &j.init.c); err != nil {
+	if _, err := fmt.Sscanf(f[6], "%d,%d,%d", &j.init.b, &j.init.l, &j.init.c); err != nil {
 		return nil, false
 	}
-	if f[6] != "-" {
-		b, err := vh.UnX(f[6])
+	if f[7] != "-" {
+		b, err := vh.UnX(f[7])
 		if err != nil {
 			return nil, false
 		}
 		j.base = string(b)
 	}
-	d, err := vh.UnX(f[7])
+	d, err := vh.UnX(f[8])
 	if err != nil {
 		return nil, false
 	}
@@ -343,6 +356,14 @@ func process(j *job) {
 		if r.nranges > 0 {
 			j.viol = append(j.viol, "range reported although capture is off")
 		}
+		if r.ekind == "b" {
+			var n int64
+			fmt.Sscanf(r.epos, "Eb%d", &n)
+			if n < 0 || n > int64(len(j.doc)) {
+				j.viol = append(j.viol, fmt.Sprintf("error-offset-outside: capture off, error byte offset %d outside the document (length %d)", n, len(j.doc)))
+				j.negOff = n < 0
+			}
+		}
 		return
 	}
 	offR := goDecode(j.pkg, j.fail, false, off{}, j.base, j.doc, j.simple, len(j.doc)+1)
@@ -512,6 +533,18 @@ func realMain() int {
 		defer cleanup()
 	}
 	seed := vh.SeedFromEnv()
+	dblLegacy = probeDbl()
+	fs, ferr := vh.LoadFindings(*findings)
+	if ferr != nil {
+		fmt.Fprintln(os.Stderr, "findings:", ferr)
+		return 2
+	}
+	knownNeg := ""
+	for _, f := range fs {
+		if f.Status == "known" && f.Property == "C16" && f.Predicate == "error-offset-outside|ttl,trig|negative-byte-offset-after-handback" {
+			knownNeg = f.Key
+		}
+	}
 	rep := vh.NewReport("C16", *tier, seed, "Turtle and TriG documents, decoded by encoding/turtle resp. encoding/trig and by the instrumented statement machine Model.TurtleDocOffsets (op ttlo.dec): hand-written corner documents (every keyword cut at every length, empty strings, lists and blank-node property lists in every position, graph blocks in every form, trailing white space / comments); grammar-directed documents (multi-line, CRLF, lone CR, multi-byte and astral characters, ill-formed bytes, comments, several statements per line, prefixed names, relative references, blank node labels, long strings, numeric/boolean shorthand, `a`, nested [ ] and ( ), GRAPH and bare graph blocks, directives in every spelling), in a `safe` variant whose resolved IRIs stay inside the model resolver's fragment (whole document compared) and a free variant (compared up to the first resolver skip); byte-level mutations and truncations of those; each with capture on (80%) or off, initial offset zero / unset or random (byte<2000, line<60, column<90), with or without a default base, reader ending in EOF or an injected error. Compared exactly: statements, presence and byte/line of every subject/predicate/object/graph range (columns as well on documents inside TW.simple), verdict, kind and value of the offset carried by Err(). Non-trivial = at least one statement with a range, or an error carrying an offset.")
 	g := vh.NewRng(seed)
 
@@ -621,8 +654,25 @@ func realMain() int {
 
 	runJobs(js)
 	failures := 0
+	if dblLegacy {
+		rep.Count("repo:handback-error-offset:legacy")
+	} else {
+		rep.Count("repo:handback-error-offset:repaired")
+	}
+	knownShown := 0
 	for _, j := range js {
 		for _, v := range j.viol {
+			// known finding D45: negative capture-off byte offset at a hand-back error site. Predicate: the
+			// implementation is the unpatched code (probe), the offset is negative, and the model of the
+			// unpatched code (which truncates at 0) agrees on everything else (checked below: no disagreement).
+			if knownNeg != "" && j.negOff && dblLegacy && strings.HasPrefix(v, "error-offset-outside") {
+				rep.Count("known:" + knownNeg)
+				if knownShown < 3 {
+					rep.Add(vh.Case{Kind: "known", Key: knownNeg, Op: j.line(), Go: clip(j.goR, 300), Detail: v + " — doc " + fmt.Sprintf("%q", clip(string(j.doc), 200))})
+					knownShown++
+				}
+				continue
+			}
 			rep.Count("violation")
 			if failures < 60 {
 				rep.Add(vh.Case{Kind: "violation", Op: j.line(), Go: clip(j.goR, 600), Detail: v + " — doc " + fmt.Sprintf("%q", clip(string(j.doc), 300))})
@@ -655,6 +705,14 @@ func realMain() int {
 		for i, j := range js {
 			compared++
 			m := res[i]
+			if j.negOff {
+				// Go's int64 offset is negative; the model's Nat is 0: compare everything else
+				if k := strings.LastIndex(j.goR, "|Eb-"); k >= 0 && strings.HasSuffix(m, "|Eb0") && j.goR[:k] == m[:len(m)-4] {
+					rep.Count("agree:full")
+					rep.Count("agree:negative-offset-truncated")
+					continue
+				}
+			}
 			if m == j.goR {
 				rep.Count("agree:full")
 				rep.Count("agree:full:" + j.kind)
